@@ -12,7 +12,11 @@ Whole files: coq/ParseTotal/WholeFile.v (line buffer, option loop, dispatch, mon
              (bin/pwhole) and compared with mps_parse_string / mps_parse_stream / mps_parse_file: POLY line
              (type, degree, structure, density, precision) or error text incl. line number must be equal,
              predicted SIGFPE / wild index must show up under the sanitizers; mode "gmp" ties the transcription
-             of mpf_set_str / mpq_set_str / atoi / sscanf %d %ld / long*LOG2_10 token by token.
+             of mpf_set_str / mpq_set_str / atoi / sscanf %d %ld / mps_utils_parse_long / long*LOG2_10 token by token.
+             The whole-file model describes the code AFTER the repairs e017eba4 (Chebyshev index check), fb161c73 +
+             fixes/C18_parsing_error_args.patch (messages at end of input) and 9e1e2262 (mps_utils_parse_long); which of
+             them the snapshot has is read from its source (repairs_in_source): the witnesses of the `_refuted` theorems
+             about the earlier code are regression inputs there, they must NOT reproduce.
 Predicate  : decided on the implementation's own output: crash / sanitizer report / timeout / NULL
              without flag / polynomial with flag / message that lost the token text = violation.
 """
@@ -549,31 +553,59 @@ def model_lines(ctx, cases):
 
 
 WHOLE = {}     # case index -> answer of the whole-file model (bin/pwhole)
+WHOLE_OLD = {} # case index -> answer of the model of the Chebyshev reader before the index check (regression inputs)
 TYPE_CODE = {"mps_monomial_poly": "0", "mps_secular_equation": "1", "mps_chebyshev_poly": "2", "?": "3"}
 MAX_MODEL_LINE = 1500      # the extracted line memory is a list: time grows with the square of the line length
 
 
+def read_src(snap, rel):
+    try: return open(os.path.join(snap, rel), errors="replace").read()
+    except OSError: return ""
+
+
 def cheb_index_checked(snap):
     """translator step: is the index check of fixes/C09_chebyshev_sparse_index_check.patch in the source?"""
-    try: src = open(os.path.join(snap, "src/libmps/chebyshev/chebyshev-parser.c"), errors="replace").read()
-    except OSError: return False
+    src = read_src(snap, "src/libmps/chebyshev/chebyshev-parser.c")
     return re.search(r"degree\s*<\s*0\s*\|\|\s*degree\s*>\s*ctx->n", src) is not None
 
 
-def whole_model(ctx, cases, chk, stats):
+def repairs_in_source(snap):
+    """which of the parser repairs the snapshot has (read from its source, nothing is assumed): the whole-file model
+    describes the code with all of them; `chebyshev-index-check` is also a parameter of the model (chk)"""
+    parser = read_src(snap, "src/libmps/common/parser.c")
+    mono = read_src(snap, "src/libmps/monomial/monomial-parser.c")
+    utils = read_src(snap, "src/libmps/common/utils.c")
+    m = re.search(r"mps_raise_parsing_error\s*\(.*?\n\{(.*?)\n\}", parser, re.S)
+    body = m.group(1) if m else ""
+    null_branch = body[:body.find("return")] if "return" in body else body
+    return {
+        "chebyshev-index-check": cheb_index_checked(snap),
+        "parse-long": "mps_utils_parse_long" in utils and "mps_utils_parse_long" in parser and "mps_utils_parse_long" in mono,
+        "degree-missing-text-without-conversion": "Degree=%d configuration option" not in parser,
+        "null-token-message-with-arguments": "vsnprintf" in null_branch and re.search(r'mps_error\s*\(\s*s\s*,\s*"%s"', null_branch) is not None,
+    }
+
+
+def whole_model(ctx, cases, chk, stats, have_parse_long=True):
     q, idx = [], []
+    oldq, oldidx = [], []
     for i, (mode, b, origin) in enumerate(cases):
         if mode == "gmp":
-            q.append("GMP " + hexs(cstr(b)))
+            q.append(("GMP " if have_parse_long else "GMPOLD ") + hexs(cstr(b)))
         elif mode in ("string", "stream", "file"):
             src = cstr(b) if mode == "string" else b
             if len(src) > 20000 or max((len(l) for l in src.split(b"\n")), default=0) > MAX_MODEL_LINE:
                 stats["whole_skipped"] += 1; continue
             q.append("PARSE %s %d %s" % ("S" if mode == "string" else "F", 1 if chk else 0, hexs(b)))
+            if chk and re.search(rb"(?i)chebyshev\s*;", src):
+                # the same file through the reader as it was BEFORE the index check (C09_whole_file_chebyshev_sparse_index_refuted)
+                oldq.append("PARSE %s 0 %s" % ("S" if mode == "string" else "F", hexs(b))); oldidx.append(i)
         else: continue
         idx.append(i)
     out = ctx.run_model_lines("pwhole", q, workers=int(os.environ.get("VERIF_JOBS", "16")))
     WHOLE.clear(); WHOLE.update({i: out[k] for k, i in enumerate(idx)})
+    outo = ctx.run_model_lines("pwhole", oldq, workers=int(os.environ.get("VERIF_JOBS", "16")))
+    WHOLE_OLD.clear(); WHOLE_OLD.update({i: outo[k] for k, i in enumerate(oldidx)})
 
 
 def compare_whole(case, res, ans, stats):
@@ -592,8 +624,10 @@ def compare_whole(case, res, ans, stats):
             TYPE_CODE.get(g.group(1), g.group(1)), g.group(2), g.group(3), g.group(4), g.group(5)), None
     if kind == "ERR":
         return status == "OK" and payload == body, None
-    if kind == "ERRI":                                   # a %d of the format has no argument: any integer is printed
-        pat = re.escape("ERR " + body[5:]).replace("%d", r"(-?\d+|%d|<n>)")   # also the texts after fixes/C09_error_format_without_argument.patch
+    if kind == "ERRI":                                   # a conversion of the format has no argument: any integer is printed
+        # (no call site of the present code produces this: the messages raised at end of input are formatted with
+        # their arguments and the missing-degree text has no conversion any more)
+        pat = re.escape("ERR " + body[5:]).replace("%d", r"-?\d+")
         ok = status == "OK" and re.fullmatch(pat, payload) is not None
         if ok: stats["witness"]["indeterminate-format-argument"] = stats["witness"].get("indeterminate-format-argument", 0) + 1
         return ok, None
@@ -680,9 +714,18 @@ def evaluate(ctx, case, res, model_ans, stats):
                  for sg, what in v]
         if not ok:
             stats["corr_mismatch"].append({"mode": mode, "hex": b.hex(), "impl": "%s | %s" % (status, payload[:200]), "model": wans[:200]})
+        wold = WHOLE_OLD.get(stats["cur"])
+        if wold is not None and wold.startswith("CRASH 4"):
+            # regression input of the repaired index check: the implementation must be clean and agree with the present model
+            stats["regression_whole"]["chebyshev-sparse-index:predicted-by-old-model"] += 1
+            if ok and status == "OK" and not v: stats["regression_whole"]["chebyshev-sparse-index:clean"] += 1
     if wans is not None and mode == "gmp":
         stats["corr"]["gmp"] = stats["corr"].get("gmp", 0) + 1
         k = "f%sq%s" % (wans[6:7], wans[10:11]); stats["gmp_classes"][k] = stats["gmp_classes"].get(k, 0) + 1
+        g = re.search(r" pl=(\S+) pd=(\S+) pp=(\S+) pq=(\S+) mulq=\S+ pn=(\S+)", wans)
+        if g:
+            k = "parse_long accepts %d of 5 ranges" % sum(1 for x in g.groups() if x != "-")
+            stats["parse_long_classes"][k] = stats["parse_long_classes"].get(k, 0) + 1
         if not (status == "OK" and payload == wans):
             stats["corr_mismatch"].append({"mode": mode, "hex": b.hex(), "impl": "%s | %s" % (status, payload[:200]), "model": wans[:200]})
     # correspondence with the model (only when the implementation answered)
@@ -753,9 +796,14 @@ def load_fragment(ctx):
 def run(ctx):
     load_fragment(ctx)
     ctx.prove()
-    h = ctx.compile_harness(["c09_parse.c"], "c09_parse", mode="san")
+    repairs = repairs_in_source(ctx.snap("san"))
+    h = ctx.compile_harness(["c09_parse.c"], "c09_parse", mode="san",
+                            extra_cflags="-DC09_HAVE_PARSE_LONG=1" if repairs["parse-long"] else "")
     stats = {"outcome": {}, "corr": {}, "witness": {}, "corr_mismatch": [], "msg_with_token": 0, "old": OLD, "cur": None,
-             "whole_outcome": {}, "whole_by_origin": {}, "whole_skipped": 0, "wild_index_silent": 0, "gmp_classes": {}}
+             "whole_outcome": {}, "whole_by_origin": {}, "whole_skipped": 0, "wild_index_silent": 0, "gmp_classes": {},
+             "parse_long_classes": {},
+             "regression_whole": {"chebyshev-sparse-index:predicted-by-old-model": 0, "chebyshev-sparse-index:clean": 0}}
+    ctx.log("repairs in source: %s" % json.dumps(repairs, sort_keys=True))
 
     if ctx.replay:
         obj = json.load(open(ctx.replay))
@@ -771,8 +819,8 @@ def run(ctx):
     ctx.log("%d cases" % len(cases))
     results = run_harness(ctx, h, cases)
     model = model_lines(ctx, cases)
-    chk = cheb_index_checked(ctx.snap("san"))
-    whole_model(ctx, cases, chk, stats)
+    chk = repairs["chebyshev-index-check"]
+    whole_model(ctx, cases, chk, stats, repairs["parse-long"])
     ctx.log("harness and model done")
 
     sig_hist, mode_hist, origin_hist, size_hist = {}, {}, {}, {}
@@ -828,6 +876,9 @@ def run(ctx):
         "whole_file_model_cases_by_origin": stats["whole_by_origin"],
         "whole_file_model_skipped_long_lines": stats["whole_skipped"],
         "whole_file_chebyshev_index_check_present_in_source": chk,
+        "parser_repairs_present_in_source": repairs,
+        "parse_long_token_classes": stats["parse_long_classes"],
+        "regression_inputs_whole_file": stats["regression_whole"],
         "wild_index_predicted_but_silent": stats["wild_index_silent"],
         "gmp_token_classes": stats["gmp_classes"],
         "model_witnesses_reproduced_on_implementation": stats["witness"],
@@ -840,8 +891,10 @@ def run(ctx):
             "harness/c09_parse.c; gcc ASan+UBSan as the observer of memory safety of the real parser (observed, not proved)",
             "modelled, not verified: glibc getline growth (single stdio chunk), libstdc++ istream::getline, x86-64 va_list "
             "re-use in mps_error, printf conversions other than %s %d %ld %% are 'wild'",
-            "hand-written ocaml/pwhole_driver.ml (hex/decimal I/O only); GMP 6.2.1 acceptance grammar and glibc atoi / sscanf %d %ld "
-            "as transcribed in coq/ParseTotal/Gmp621.v (tied token by token, mode gmp)",
+            "hand-written ocaml/pwhole_driver.ml (hex/decimal I/O only); GMP 6.2.1 acceptance grammar, glibc atoi / sscanf %d %ld "
+            "and mps_utils_parse_long (strtol + ERANGE + range) as transcribed in coq/ParseTotal/Gmp621.v (tied token by token, mode gmp)",
+            "which parser repairs the snapshot has (Chebyshev index check, mps_utils_parse_long, end-of-input messages) is read "
+            "from its source by regular expressions; the model describes the code with all of them",
             "not modelled: what GMP, the allocator and the double/DPE conversions do with an accepted token, the history ring of "
             "the input buffer, the yacc inline grammar: these are covered by outcome class + sanitizers only",
         ],
